@@ -671,6 +671,9 @@ func c04Worker(ctx *core.Ctx) *core.Result {
 	defer x.sc.Close()
 	x.run(nsxSpaces(ctx))
 	x.runChain()
+	// targets made of IPv4 + IPv6 + raw parts with several policies (shared
+	// with C18): the manager must reach the effective, merged target
+	(&c18{ctx: ctx, res: x.res, sc: x.sc, prop: "C04"}).runNSXMulti()
 	return x.res
 }
 
@@ -724,7 +727,7 @@ func SelftestNSX() (ok, unsupported int, bad []string) {
 func init() {
 	registerSharded("C04", c04Worker, func(tier string) core.Meta {
 		return core.Meta{ID: "C04", Level: "model_checking",
-			Rule: "states = distinct manager states of the NSX model; enumerated: all pairs of rule subsets of a 6-rule alphabet (two rules sharing a sequence_number, differing in direction/action/logged/tag), all pairs of group address sets over 4/5 addresses x naming variants (renamed, shared, duplicated left-overs, id clash, two rules sharing a group), service variants (changed in place, unused, new), policy structures, corpus product of nsx.t, chain of approves; transition = real planner; each REST call is executed on the model; oracle: rule multiset per policy equal with groups as address sets and services by definition, no left-over Netspoc service/unused group, second compare silent, empty script only for an equivalent manager",
+			Rule: "states = distinct manager states of the NSX model; enumerated: all pairs of rule subsets of a 6-rule alphabet (two rules sharing a sequence_number, differing in direction/action/logged/tag), all pairs of group address sets over 4/5 addresses x naming variants (renamed, shared, duplicated left-overs, id clash, two rules sharing a group), spaces clash (id of an edited device group re-used by an inserted rule) and two-groups (two tying rules with source and destination groups over device groups gA,gB and target groups gA,gB,gC with changed contents), targets of IPv4+IPv6+raw parts with three policies (merged target, shared with C18), service variants (changed in place, unused, new), policy structures, corpus product of nsx.t, chain of approves; transition = real planner; each REST call is executed on the model; oracle: rule multiset per policy equal with groups as address sets and services by definition, no left-over Netspoc service/unused group, second compare silent, empty script only for an equivalent manager",
 			Assumptions: []string{"NSX model: PUT creates (an existing object needs _revision), PATCH merges, DELETE refuses referenced objects, POST ?action=add/remove refuse present/absent addresses",
 				"only the documented rule attributes are compared (the tool drops unknown ones when parsing)"},
 			Bounds: map[string]any{"quick": "groups over 4 addresses", "thorough": "groups over 5 addresses, chain depth 3"},
